@@ -483,7 +483,18 @@ def is_values(I, a, b) -> VBool:
     if isinstance(a, (VInt, VFloat, VStr, VBytes, VTuple, VBool)) or isinstance(b, (VInt, VFloat, VStr, VBytes, VTuple, VBool)):
         if type(a) is not type(b):
             return FALSE
-        raise Unsupported("`is` on value types")
+        if a is b:
+            return TRUE
+        # identity of two immutable values: implies equality; otherwise it depends on object identity, which the value model does
+        # not track (the same name bound twice is caught above): an uninterpreted Boolean that implies equality
+        from . import builtins as B
+        try:
+            t = B.opaque_bool(I, "is_same_object", [a, b])
+            I.path.assume(z3.Implies(t.term(), eq_values(I, a, b).term()))
+            I.path.assumption("`is` between two immutable values (bytes / str / int): identity implies equality; beyond that it is an uninterpreted Boolean")
+            return t
+        except Unsupported:
+            raise Unsupported("`is` on value types")
     return mkbool(a is b)
 
 
